@@ -344,7 +344,10 @@ def run(pid, tier, seed, a, t0):
         # of this property was selected above with nothing to prove and is verified here under its own (closure) tags
         done = {q for q in fun_quals if pid in (contract.REGISTRY[q].tags or ())} if P.get('functional', True) else set()
         pending = {q for q in contract.USE_LOG if q in contract.REGISTRY and contract.REGISTRY[q].setup is not None and not contract.REGISTRY[q].generic} - done
-        pending |= {q for q in P.get('closure', ()) if q in contract.REGISTRY}       # contracts a lemma-level argument rests on, named explicitly
+        named = P.get('closure', ())
+        if callable(named):
+            named = named(contract.REGISTRY)         # a rule instead of a list (e.g. every _parse/_build contract stated relative to the start position)
+        pending |= {q for q in named if q in contract.REGISTRY} - done       # contracts a lemma-level argument rests on, named explicitly
         while pending:
             contract.USE_LOG.clear()
             qs = sorted(pending)
